@@ -38,8 +38,9 @@ UT = "src/pyhf/infer/utils.py"
 FLAGS = ["return_tail_probs", "return_expected", "return_expected_set", "return_calculator"]
 
 
-# R2, R3, R5 know the helper structure of the pinned tree; R6 decides the same clauses on the composition (see Ctx.defer)
-DEFER = [(["C08.R2", "C08.R3", "C08.R5"], ["C08.R6"])]
+# R2 and R5 know the helper structure of the pinned tree; R6 decides the same clauses on the composition (see Ctx.defer).
+# R3 also covers the toy calculator, which R6 does not walk: it keeps its own verdict.
+DEFER = [(["C08.R2", "C08.R5"], ["C08.R6"])]
 
 
 def run(ctx):
